@@ -742,8 +742,10 @@ class HostConnectionPool(object):
         log.debug("Going to open new connection to host %s", self.host)
         try:
             conn = self._session.cluster.connection_factory(self.host.endpoint, on_orphaned_stream_released=self.on_orphaned_stream_released)
+            selected = None
             if self._keyspace:
-                conn.set_keyspace_blocking(self._session.keyspace)
+                selected = self._session.keyspace
+                conn.set_keyspace_blocking(selected)
             self._next_trash_allowed_at = time.time() + _MIN_TRASH_INTERVAL
             with self._lock:
                 is_shutdown = self.is_shutdown
@@ -756,6 +758,10 @@ class HostConnectionPool(object):
                 # the pool was shut down while the connection was being opened: shutdown() did not see it
                 conn.close()
                 return True
+            # a keyspace switch may have gone through the pool's connections while this one was being set up
+            keyspace = self._keyspace
+            if keyspace and keyspace != selected:
+                conn.set_keyspace_blocking(keyspace)
             log.debug("Added new connection (%s) to pool for host %s, signaling availability",
                       id(conn), self.host)
             self._signal_available_conn()
